@@ -24,7 +24,8 @@ REQUIRED_THEOREMS = ['english_value', 'english_cardinal', 'english_ordinal', 'en
                      'spanish_sub1000', 'portuguese_sub1000', 'german_sub1000', 'dutch_sub1000',
                      'french_sub1000_partial', 'french_plural_cents_witness', 'italian_sub1000_partial',
                      'italian_accented_tre_witness', 'cjk_int_zh', 'cjk_int_ja_partial', 'cjk_ja_bare_unit_witness',
-                     'cjk_round_div10', 'round_map_consistent', 'round_map_consistent_de_partial', 'german_milliard_witness']
+                     'cjk_round_div10', 'round_map_consistent', 'round_map_consistent_de_partial', 'german_milliard_witness',
+                     'spanish_sub1e6', 'portuguese_sub1e6', 'german_sub1e6', 'dutch_sub1e6']
 RULE = ('unit: __get_int_value on every English numeral of the pipeline set + seeded token lists over each '
         "culture's map keys; pipeline: English n<10^4 (quick: every 7th + boundaries; thorough: all), 10^k, 10^k±1, "
         'seeded n<10^15, x 8 variants x cardinal/ordinal x alone/carrier; es fr pt de it nl zh ja: generator output '
@@ -325,20 +326,25 @@ def pipeline_english(ctx, spelled):
 
 
 EU = {'es-es': 'es', 'fr-fr': 'fr', 'pt-br': 'pt', 'de-de': 'de', 'it-it': 'it', 'nl-nl': 'nl'}
+EU_BIG = ('es-es', 'pt-br', 'de-de', 'nl-nl')     # cultures whose specification reaches 10^6 (spellEuAll)
 
 
 def eu_numerals(ctx):
     """The numerals below 1000 of es fr pt de it nl come from the Lean specification `spellEu` (driver); unit ties:
     the tokeniser yields the specification's tokens, and __get_int_value agrees with the model on them."""
-    lines = ['n.spelleu\t%s\t%d' % (short, n) for short in EU.values() for n in range(1000)]
-    out = common.driver(lines)
+    r = ctx.rng('eu-big')
+    big_ns = set()
+    for k in (1, 2, 11, 21, 31, 100, 101, 121, 200, 999):
+        for u in (0, 1, 21, 100, 101, 121, 999):
+            big_ns.add(1000 * k + u)
+    for _ in range(3000 if ctx.thorough else 300):
+        big_ns.add(r.randint(1000, 999999))
+    keys = [(cu, n) for cu in EU for n in list(range(1000)) + (sorted(big_ns) if cu in EU_BIG else [])]
+    out = common.driver(['n.spelleu\t%s\t%d' % (EU[cu], n) for cu, n in keys])
     table = {}
-    k = 0
-    for cu in EU:
-        for n in range(1000):
-            text, toks = out[k].split('|')
-            table[(cu, n)] = (uncps(text), [uncps(t) for t in toks.split(';')])
-            k += 1
+    for (cu, n), o in zip(keys, out):
+        text, toks = o.split('|')
+        table[(cu, n)] = (uncps(text), [uncps(t) for t in toks.split(';')])
     gl, gi, meta = [], [], []
     for (cu, n), (text, toks) in table.items():
         parser = numlib.models(cu)['number'].parser
@@ -372,8 +378,9 @@ def pipeline_other(ctx):
         for _ in range(1500 if ctx.thorough else 250):
             k = r.randint(3, 11)
             ns.add(r.randint(10 ** (k - 1), 10 ** k - 1))
+        ns.update(n for (c2, n) in eu if c2 == cu)
         for n in sorted(ns):
-            text = eu[(cu, n)][0] if (cu, n) in eu else gen(n)     # below 1000: the Lean specification
+            text = eu[(cu, n)][0] if (cu, n) in eu else gen(n)     # the Lean specification where it reaches
             if text is None:
                 continue
             for carrier in (False, True):
